@@ -326,29 +326,51 @@ fn pyth_px_x(o: &OracleIn, cfg_key: &Pubkey, now: i64, max_age: u64, max_conf: &
 }
 
 fn swb_px(o: &OracleIn, cfg_key: &Pubkey, now: i64, max_age: u64, max_conf: &Rat) -> Result<RefPx, PxErr> {
+    swb_px_x(o, cfg_key, now, max_age, max_conf, None, &zero(), None)
+}
+
+fn swb_decode(data: &[u8]) -> Option<(i64, i128, i128)> {
     use switchboard_on_demand::PullFeedAccountData;
+    let n = std::mem::size_of::<PullFeedAccountData>();
+    if data.len() < 8 + n || data[..8] != <PullFeedAccountData as switchboard_on_demand::Discriminator>::DISCRIMINATOR {
+        return None;
+    }
+    let o_ts = 8 + std::mem::offset_of!(PullFeedAccountData, last_update_timestamp);
+    let o_res = 8 + std::mem::offset_of!(PullFeedAccountData, result);
+    let ts = i64::from_le_bytes(data[o_ts..o_ts + 8].try_into().unwrap());
+    let value = i128::from_le_bytes(data[o_res..o_res + 16].try_into().unwrap());
+    let std_dev = i128::from_le_bytes(data[o_res + 16..o_res + 32].try_into().unwrap());
+    Some((ts, value, std_dev))
+}
+
+/// `scale`: exact exchange rate (num, den) the value and the deviation are multiplied by (venue
+/// banks); `rate_err`: absolute error bound of the rate the program computes; `int_ratio`: when
+/// given, the program's integer adjustment `raw * num / den` (Drift) whose fail-closed boundaries
+/// are checked by the caller.
+#[allow(clippy::too_many_arguments)]
+fn swb_px_x(o: &OracleIn, cfg_key: &Pubkey, now: i64, max_age: u64, max_conf: &Rat, scale: Option<(&Rat, &Rat)>, rate_err: &Rat, _int_ratio: Option<()>) -> Result<RefPx, PxErr> {
     if &o.key != cfg_key {
         return Err(PxErr::WrongKey);
     }
     if o.owner != SWB_OWNER {
         return Err(PxErr::WrongOwner);
     }
-    let n = std::mem::size_of::<PullFeedAccountData>();
-    if o.data.len() < 8 + n || o.data[..8] != <PullFeedAccountData as switchboard_on_demand::Discriminator>::DISCRIMINATOR {
-        return Err(PxErr::BadData);
-    }
-    let o_ts = 8 + std::mem::offset_of!(PullFeedAccountData, last_update_timestamp);
-    let o_res = 8 + std::mem::offset_of!(PullFeedAccountData, result);
-    let ts = i64::from_le_bytes(o.data[o_ts..o_ts + 8].try_into().unwrap());
-    let value = i128::from_le_bytes(o.data[o_res..o_res + 16].try_into().unwrap());
-    let std_dev = i128::from_le_bytes(o.data[o_res + 16..o_res + 32].try_into().unwrap());
+    let (ts, value, std_dev) = swb_decode(o.data).ok_or(PxErr::BadData)?;
     if (now as i128) - (ts as i128) > max_age as i128 {
         return Err(PxErr::Stale);
     }
     let sc = one() / pow10(18);
-    let p = ri(value) * &sc;
-    let kc = ri(std_dev) * &sc * rq(196, 100);
-    let e = ulp() * ri(8) + abs(&(ri(std_dev) * &sc)) * ulp() + (abs(&p) + one()) * ulp() * ri(2);
+    let mul = match scale {
+        Some((n, d)) => n / d,
+        None => one(),
+    };
+    let p = ri(value) * &sc * &mul;
+    let kc = ri(std_dev) * &sc * rq(196, 100) * &mul;
+    let mut e = ulp() * ri(8) + abs(&(ri(std_dev) * &sc * &mul)) * ulp() + (abs(&p) + one()) * ulp() * ri(2);
+    if scale.is_some() {
+        // rate error on value and deviation, plus one 1e-18 step of integer truncation each
+        e += (abs(&(ri(value) * &sc)) + abs(&(ri(std_dev) * &sc)) * rq(196, 100)) * rate_err + &sc * ri(4);
+    }
     Ok(RefPx { spot: p.clone(), spot_kc: kc.clone(), ema: p, ema_kc: kc, max_conf: max_conf.clone(), e, fixed: false })
 }
 
@@ -356,7 +378,7 @@ fn swb_px(o: &OracleIn, cfg_key: &Pubkey, now: i64, max_age: u64, max_conf: &Rat
 /// liquidity-per-collateral rate `liq / col`, with the error of the program's fixed-point rate and
 /// its fail-closed integer boundaries.
 #[allow(clippy::too_many_arguments)]
-fn venue_px(o: &OracleIn, cfg: &BankConfig, now: i64, max_age: u64, max_conf: &Rat, liq: Rat, col: u64, dec: u64, liq_bits: num_bigint::BigInt) -> Result<RefPx, PxErr> {
+fn venue_px(o: &OracleIn, cfg: &BankConfig, now: i64, max_age: u64, max_conf: &Rat, liq: Rat, col: u64, dec: u64, liq_bits: num_bigint::BigInt, swb: bool) -> Result<RefPx, PxErr> {
     use num_bigint::BigInt;
     if dec > 23 {
         return Err(PxErr::Unsupported);
@@ -367,7 +389,7 @@ fn venue_px(o: &OracleIn, cfg: &BankConfig, now: i64, max_age: u64, max_conf: &R
     // ratio; a collateral supply below one grid step means "no adjustment"
     let (l, c) = (&liq / &scale, &colr / &scale);
     if c < ulp() {
-        return pyth_px(o, &cfg.oracle_keys[0], now, max_age, max_conf, None);
+        return if swb { swb_px(o, &cfg.oracle_keys[0], now, max_age, max_conf) } else { pyth_px(o, &cfg.oracle_keys[0], now, max_age, max_conf, None) };
     }
     if liq.is_negative() {
         return Err(PxErr::NegativeOrZeroSupply);
@@ -381,7 +403,22 @@ fn venue_px(o: &OracleIn, cfg: &BankConfig, now: i64, max_age: u64, max_conf: &R
         let cp = (BigInt::from(col) << 48usize) / &p10;
         if cp > BigInt::from(0) {
             let ratio_bits: BigInt = (lp << 48usize) / cp;
-            if let Some((_, price, conf, _, _, ema, ema_conf)) = pyth_decode(o.data) {
+            if swb {
+                // adjust_i128: the raw 1e18-scaled value must fit 79 integer bits, and so must the product
+                if let Some((_, value, std_dev)) = swb_decode(o.data) {
+                    let lim = BigInt::from(1) << 79usize;
+                    for raw in [value, std_dev] {
+                        let r = BigInt::from(raw);
+                        if r >= lim || r < -lim.clone() {
+                            return Err(PxErr::Unsupported);
+                        }
+                        let prod: BigInt = (r * &ratio_bits) >> 48usize;
+                        if prod >= lim || prod < -lim.clone() {
+                            return Err(PxErr::Unsupported);
+                        }
+                    }
+                }
+            } else if let Some((_, price, conf, _, _, ema, ema_conf)) = pyth_decode(o.data) {
                 let fits = |raw: BigInt, lim_bits: u32| -> bool {
                     let prod: BigInt = (raw * &ratio_bits) >> 48usize;
                     prod < (BigInt::from(1) << lim_bits as usize) && prod < (BigInt::from(1) << 79usize)
@@ -398,6 +435,9 @@ fn venue_px(o: &OracleIn, cfg: &BankConfig, now: i64, max_age: u64, max_conf: &R
     // |rate_prog - l/c| <= max(l*u/(c*(c-u)), u/c)*5 + 2u  (truncated inputs, one division)
     let u = ulp();
     let rate_err = if c > &u * ri(2) { rmax(&(&l * &u * ri(5) / (&c * (&c - &u))), &(&u * ri(5) / &c)) + &u * ri(2) } else { &l / &c + one() };
+    if swb {
+        return swb_px_x(o, &cfg.oracle_keys[0], now, max_age, max_conf, Some((&liq, &colr)), &rate_err, None);
+    }
     pyth_px_x(o, &cfg.oracle_keys[0], now, max_age, max_conf, Some((&liq, &colr)), true, &rate_err)
 }
 
@@ -465,7 +505,8 @@ pub fn ref_price(b: &Bank, ors: &[OracleIn], now: i64) -> Result<RefPx, PxErr> {
             let _ = &mut px;
             Ok(px)
         }
-        OracleSetup::KaminoPythPush => {
+        OracleSetup::KaminoPythPush | OracleSetup::KaminoSwitchboardPull => {
+            let swb = cfg.oracle_setup == OracleSetup::KaminoSwitchboardPull;
             use kamino_mocks::state::MinimalReserve as R;
             if ors.len() != 2 {
                 return Err(PxErr::WrongCount);
@@ -497,9 +538,10 @@ pub fn ref_price(b: &Bank, ors: &[OracleIn], now: i64) -> Result<RefPx, PxErr> {
                 - sfb(std::mem::offset_of!(R, accumulated_protocol_fees_sf))
                 - sfb(std::mem::offset_of!(R, accumulated_referrer_fees_sf))
                 - sfb(std::mem::offset_of!(R, pending_referrer_fees_sf));
-            venue_px(&ors[0], cfg, now, max_age(false), &max_conf, liq, col, dec, liq_bits)
+            venue_px(&ors[0], cfg, now, max_age(false), &max_conf, liq, col, dec, liq_bits, swb)
         }
-        OracleSetup::SolendPythPull => {
+        OracleSetup::SolendPythPull | OracleSetup::SolendSwitchboardPull => {
+            let swb = cfg.oracle_setup == OracleSetup::SolendSwitchboardPull;
             use solend_mocks::state::SolendMinimalReserve as R;
             if ors.len() != 2 {
                 return Err(PxErr::WrongCount);
@@ -529,9 +571,10 @@ pub fn ref_price(b: &Bank, ors: &[OracleIn], now: i64) -> Result<RefPx, PxErr> {
                 (BigInt::from(raw / WAD) << 48usize) + BigInt::from(((raw % WAD) << 48) / WAD)
             };
             let liq_bits = (BigInt::from(u64_at(std::mem::offset_of!(R, liquidity_available_amount))) << 48usize) + d2b(std::mem::offset_of!(R, liquidity_borrowed_amount_wads)) - d2b(std::mem::offset_of!(R, liquidity_accumulated_protocol_fees_wads));
-            venue_px(&ors[0], cfg, now, max_age(false), &max_conf, liq, col, dec, liq_bits)
+            venue_px(&ors[0], cfg, now, max_age(false), &max_conf, liq, col, dec, liq_bits, swb)
         }
-        OracleSetup::DriftPythPull => {
+        OracleSetup::DriftPythPull | OracleSetup::DriftSwitchboardPull => {
+            let swb = cfg.oracle_setup == OracleSetup::DriftSwitchboardPull;
             use drift_mocks::state::MinimalSpotMarket as M;
             if ors.len() != 2 {
                 return Err(PxErr::WrongCount);
@@ -551,6 +594,24 @@ pub fn ref_price(b: &Bank, ors: &[OracleIn], now: i64) -> Result<RefPx, PxErr> {
             }
             let o = std::mem::offset_of!(M, cumulative_deposit_interest);
             let cum = u128::from_le_bytes(d[8 + o..8 + o + 16].try_into().unwrap());
+            let num = ru(cum);
+            let den = ru(10_000_000_000);
+            if swb {
+                // adjust_i128: raw * cum / 1e10 in u128 (negative or overflowing values fail closed)
+                if let Some((_, value, std_dev)) = swb_decode(ors[0].data) {
+                    use num_bigint::BigInt;
+                    for raw in [value, std_dev] {
+                        if raw < 0 {
+                            return Err(PxErr::Unsupported);
+                        }
+                        let prod = BigInt::from(raw) * BigInt::from(cum);
+                        if prod >= (BigInt::from(1) << 128usize) || prod / BigInt::from(10_000_000_000u64) >= (BigInt::from(1) << 127usize) {
+                            return Err(PxErr::Unsupported);
+                        }
+                    }
+                }
+                return swb_px_x(&ors[0], &cfg.oracle_keys[0], now, max_age(false), &max_conf, Some((&num, &den)), &zero(), None);
+            }
             // fail-closed boundaries of the integer adjustment (raw * cum / 1e10 in u128, back to i64 / u64)
             if let Some((_, price, conf, _, _, ema, ema_conf)) = pyth_decode(ors[0].data) {
                 use num_bigint::BigInt;
@@ -565,8 +626,6 @@ pub fn ref_price(b: &Bank, ors: &[OracleIn], now: i64) -> Result<RefPx, PxErr> {
                     return Err(PxErr::Unsupported);
                 }
             }
-            let num = ru(cum);
-            let den = ru(10_000_000_000);
             // integer truncation of each adjusted field only (the rate itself is exact)
             pyth_px_x(&ors[0], &cfg.oracle_keys[0], now, max_age(false), &max_conf, Some((&num, &den)), true, &zero())
         }
